@@ -165,6 +165,23 @@ type walker struct {
 	events []string
 	onCall func(w *walker, call *ssa.Call)
 	onStore func(w *walker, st *ssa.Store)
+	chosen  map[*ssa.Phi]ssa.Value // phi → operand of the edge the walk took
+}
+
+// resolve replaces phis by the operand the walk selected.
+func (w *walker) resolve(v ssa.Value) ssa.Value {
+	for i := 0; i < 8; i++ {
+		p, ok := stripTrivial(v).(*ssa.Phi)
+		if !ok {
+			return v
+		}
+		c, ok := w.chosen[p]
+		if !ok {
+			return v
+		}
+		v = c
+	}
+	return v
 }
 
 func (w *walker) eval(v ssa.Value, d int) int {
@@ -197,9 +214,20 @@ func (w *walker) eval(v ssa.Value, d int) int {
 // run walks fn from its entry; returns the Return reached (nil if a branch
 // could not be decided) and the block where it got stuck.
 func (w *walker) run(fn *ssa.Function) (*ssa.Return, ssa.Instruction) {
-	b := fn.Blocks[0]
-	var prev *ssa.BasicBlock
+	return w.runFrom(fn.Blocks[0], nil)
+}
+
+// runFrom starts at block b (entered from prev).  A block entered for the
+// second time ends the walk (one loop iteration is observed): the event
+// "<loop>" is appended and (nil, nil) returned.
+func (w *walker) runFrom(b, prev *ssa.BasicBlock) (*ssa.Return, ssa.Instruction) {
+	visited := map[*ssa.BasicBlock]bool{}
 	for steps := 0; steps < 500; steps++ {
+		if visited[b] {
+			w.events = append(w.events, "<loop>")
+			return nil, nil
+		}
+		visited[b] = true
 		// phis first, using the edge actually taken
 		for _, in := range b.Instrs {
 			p, ok := in.(*ssa.Phi)
@@ -209,6 +237,10 @@ func (w *walker) run(fn *ssa.Function) (*ssa.Return, ssa.Instruction) {
 			for i, pb := range b.Preds {
 				if pb == prev {
 					w.vals[p] = w.eval(p.Edges[i], 0)
+					if w.chosen == nil {
+						w.chosen = map[*ssa.Phi]ssa.Value{}
+					}
+					w.chosen[p] = p.Edges[i]
 				}
 			}
 		}
